@@ -17,8 +17,9 @@ for rp in repo.iter_py("spsdk"):
         print("skip", rp, e)
         continue
     t = reflocals.table_for(m.tree)
-    if t:
-        t["__digest__"] = m.digest
-        out[rp] = t
+    from sa.core import derefactor
+    t.update(derefactor.reference_names(m.tree))
+    t["__digest__"] = m.digest
+    out[rp] = t
 json.dump(out, open(reflocals.REF_PATH, "w"), sort_keys=True, separators=(",", ":"))
 print(len(out), "modules,", sum(len(v) for v in out.values()), "functions,", sum(len(x) for v in out.values() for x in v.values() if isinstance(x, dict)), "locals ->", reflocals.REF_PATH, os.path.getsize(reflocals.REF_PATH), "bytes")
